@@ -93,6 +93,10 @@ func wireEncode(v *wireVec) (*wireCase, error) {
 				body = append(body, fmt.Sprintf("key%d", p)...)
 				body = append(body, 0)
 				body = append(body, fmt.Sprintf("val%d", p)...)
+				if want := map[string]int{"max": 10000, "over": 10001}[ms_(m, "size")]; want > 0 && p == 0 {
+					// pad the first value: 4 (length) + 4 (version) + key0 NUL val0<pad> NUL + final NUL = want
+					body = append(body, filler(want-4-len(body)-2, 9)...)
+				}
 				if !(ms_(m, "term") == "nonul" && p == mi(m, "params")-1) {
 					body = append(body, 0)
 				}
@@ -307,6 +311,11 @@ func evalPrefix(m layer4.ConnMatcher, wc *wireCase, stream []byte, n int, netw s
 		for k := 0; k*chunk < n; k++ {
 			sc.Pulls = append(sc.Pulls, chunk)
 		}
+	}
+	if n > 8191 && netw == "tcp" {
+		// the limit is checked before a chunk is read: at 8191 bytes one more chunk is read, so up to 10239 bytes can be
+		// looked at by a matcher - with this segmentation
+		sc.Pulls = []int{2048, 2048, 2048, 2047}
 	}
 	if wc.remote != nil {
 		sc.Remote = wc.remote
